@@ -143,13 +143,19 @@ def run(ctx):
                 continue
             h, early = loop_early_exits(F, cb, cbi)
             if h is None:
+                # not in a recognised iterator loop: fine when the call is straight-line code (the exact-key dispatch), but a call
+                # that sits on a cycle of another shape (index loop, `loop {}`) is a fan-out the rule cannot read
+                again, _p = cb.reach_from(cb.term(cbi)["t"]) if cb.term(cbi).get("t") is not None else (set(), None)
+                if cbi in again:
+                    ctx.bad("C24-f", "%s#dispatch-loop#unrecognised" % fkey(croot), "UNRECOGNISED-FORM: dispatch_to_map is called inside a loop that is not an iterator / pop loop; "
+                            "its exits cannot be checked", loc(cb, cbi))
                 continue
             looped += 1
             nth[croot] = nth.get(croot, -1) + 1
             ctx.check("C24-f", "%s#dispatch-loop[%d]-single-exit" % (fkey(croot), nth[croot]), not early, "every key / prefix segment of the loop is dispatched",
                       "the loop over the key's prefix segments can be left early at %s: prefix watchers of the remaining segments miss the event" % [loc(cb, x) for (x, _y) in early[:3]],
                       loc(cb, cbi))
-        ctx.floor("C24-f", looped, 1, "dispatch_to_map call inside the prefix-segment loop of its caller")
+        ctx.floor("C24-f", looped, 2, "dispatch_to_map calls inside key / prefix-segment loops of its callers (3 today)")
         over = [c for c in conds.values() if cap_rel(c) == "<="]
         ctx.floor("C24-b", len(over), 1, "overflow branch (capacity() <= 1) in dispatch_to_map")
         pushes = [bi for (bi, t) in calls_matching(mb, r"Vec::push$")]
